@@ -167,6 +167,27 @@ fn is_nontrivial(fams: &[NFamily]) -> bool {
     })
 }
 
+/// Accepts `left` bytes, then fails every write.
+struct FailAfter {
+    left: usize,
+    got: Vec<u8>,
+}
+
+impl std::io::Write for FailAfter {
+    fn write(&mut self, buf: &[u8]) -> std::io::Result<usize> {
+        if self.left == 0 && !buf.is_empty() {
+            return Err(std::io::Error::new(std::io::ErrorKind::Other, "writer full"));
+        }
+        let n = self.left.min(buf.len());
+        self.left -= n;
+        self.got.extend_from_slice(&buf[..n]);
+        Ok(n)
+    }
+    fn flush(&mut self) -> std::io::Result<()> {
+        Ok(())
+    }
+}
+
 impl Property for C04 {
     fn id(&self) -> &'static str {
         "C04"
@@ -176,7 +197,9 @@ impl Property for C04 {
          help and label values concatenated from an adversarial pool incl. backslash, quote, LF, CR, backslash-n, multi-byte, \
          exposition-like text; every f64 class; counts over u64; timestamps incl. i64 extremes) or gathered from real metrics in a \
          Registry. Oracle: independent 0.0.4 parser -> record sequence must equal the sequence computed from the input; plus \
-         encode/encode_utf8/encode_to_string agreement, append-only, and concatenation metamorphic checks. Non-trivial: some help \
+         encode/encode_utf8/encode_to_string agreement, append-only, and concatenation metamorphic checks; in 30% of cases an encode \
+         into a writer that refuses everything after a generated byte offset must return Err and the next encode on the same thread \
+         must again produce exactly the same bytes. Non-trivial: some help \
          or label value contains one of \\ \" LF CR or a non-ASCII char, or a non-finite/subnormal/>=1e21 value, or a \
          histogram/summary. Distinct = hash of decoded choices."
     }
@@ -234,6 +257,26 @@ impl Property for C04 {
         match enc.encode_to_string(&lib) {
             Ok(s) => ensure!(s == text, "encoders-disagree", "encode_to_string gave {:?} but encode wrote {:?}", s, text),
             Err(e) => return fail("encode-error", format!("encode_to_string: {}", e)),
+        }
+        // an encode into a writer that stops accepting bytes reports the failure and leaves nothing behind that
+        // could alter a later rendering made on the same thread
+        if src.chance(80) && !new_bytes.is_empty() {
+            let cut = src.below(new_bytes.len().min(4096));
+            let mut w = FailAfter { left: cut, got: vec![] };
+            let r = enc.encode(&lib, &mut w);
+            ensure!(r.is_err(), "failed-write-reported-ok", "the writer refused everything after byte {} of {} but encode returned Ok", cut, new_bytes.len());
+            let mut again = Vec::new();
+            let r = enc.encode(&lib, &mut again);
+            ensure!(r.is_ok(), "encode-error", "encode after a failed encode: {:?}", r);
+            ensure!(
+                again == new_bytes,
+                "rendering-changed-after-failed-encode",
+                "the writer failed at byte {}; the next encode on this thread wrote {:?} instead of {:?}",
+                cut,
+                String::from_utf8_lossy(&again),
+                text
+            );
+            rep.class("failed-encode-then-encode-again");
         }
         // concatenation: a ++ b == a then b
         if lib.len() >= 2 {
